@@ -220,4 +220,118 @@ theorem remove_then_create (path : Path) (k : Kind) (w : W) (hc : w.s.closed = f
   simp only [this]
   rfl
 
+/-! ## `dirChange` as a whole -/
+
+theorem join_clean (a b : Path) : clean (join a b) = join a b := by
+  unfold join
+  split
+  · exact clean_idem _
+  · split <;> exact clean_idem _
+
+/-- the Creates `dirChange` may deliver for a listing: one per listed entry that has not been seen -/
+def newEntries (seen : List Path) (d : Path) (files : List (Path × Except FsErr Kind)) : List Path :=
+  (files.map fun f => join d f.1).filter fun p => !(seen.contains p)
+
+/-- what the loop of `dirChange` has done after any number of entries: delivered Creates only for listed
+entries that were not seen when it started, delivered nothing else, forgot nothing, did not close -/
+def DcInv (w0 : W) (d : Path) (files : List (Path × Except FsErr Kind)) (w : W) : Prop :=
+  w.s.closed = false ∧ w.errors = w0.errors ∧ (∀ p, p ∈ w0.s.seen → p ∈ w.s.seen) ∧
+  ∃ cs : List Path, w.events = w0.events ++ cs.map (fun p => (⟨p, Create⟩ : Ev)) ∧ ∀ p, p ∈ cs → p ∈ newEntries w0.s.seen d files
+
+theorem dirChange_loop (w0 : W) (d : Path) (all : List (Path × Except FsErr Kind)) :
+    ∀ (files : List (Path × Except FsErr Kind)), (∀ f, f ∈ files → f ∈ all) → ∀ w, DcInv w0 d all w →
+    DcInv w0 d all ((forUntil (fun (f : Path × Except FsErr Kind) => do
+      match f.2 with
+      | .error .noent => pure (some (none : Option Err))
+      | .error e => pure (some (some (Err.fs e)))
+      | .ok k =>
+        match ← sendCreateIfNew (join d f.1) k with
+        | none => pure none
+        | some (.fs .acces) => pure (some none)
+        | some (.fs .noent) => pure (some none)
+        | some e => pure (some (some e))) files) w).2 := by
+  intro files
+  induction files with
+  | nil => intro _ w h; exact h
+  | cons f rest ih =>
+    intro hsub w h
+    unfold forUntil
+    simp only [bind_apply]
+    obtain ⟨hc, he, hs, cs, hev, hcs⟩ := h
+    cases hk : f.2 with
+    | error e =>
+      cases e <;> simp only [pure_apply] <;> exact ⟨hc, he, hs, cs, hev, hcs⟩
+    | ok k =>
+      simp only [bind_apply]
+      obtain ⟨s1, s2, s3, s4, _⟩ := sendCreateIfNew_spec (join d f.1) k w hc (join_clean _ _)
+      -- the world after this entry still satisfies the invariant
+      have hinv : DcInv w0 d all (sendCreateIfNew (join d f.1) k w).2 := by
+        refine ⟨s3, by rw [s2, he], fun p hp => s4 p (hs p hp), ?_⟩
+        by_cases hseen : w.s.seen.contains (join d f.1) = true
+        · refine ⟨cs, ?_, hcs⟩
+          rw [s1, hseen]; simp [hev]
+        · have hseen' : w.s.seen.contains (join d f.1) = false := by simpa using hseen
+          refine ⟨cs ++ [join d f.1], ?_, ?_⟩
+          · rw [s1, hseen', hev]; simp
+          · intro p hp
+            rcases List.mem_append.mp hp with hp | hp
+            · exact hcs p hp
+            · simp only [List.mem_singleton] at hp
+              subst hp
+              unfold newEntries
+              simp only [List.mem_filter, List.mem_map, Bool.not_eq_true']
+              refine ⟨⟨f, hsub f (by simp), rfl⟩, ?_⟩
+              -- not seen now, and the seen set only grew: not seen at the start
+              cases h0 : w0.s.seen.contains (join d f.1) with
+              | false => rfl
+              | true =>
+                have : join d f.1 ∈ w.s.seen := hs _ (by simpa using h0)
+                have : w.s.seen.contains (join d f.1) = true := by simpa using this
+                rw [this] at hseen'; cases hseen'
+      cases hr : (sendCreateIfNew (join d f.1) k w).1 with
+      | none =>
+        simp only []
+        exact ih (fun x hx => hsub x (List.mem_cons_of_mem _ hx)) _ hinv
+      | some e =>
+        cases e with
+        | closed => simp only [pure_apply]; exact hinv
+        | nonExistent => simp only [pure_apply]; exact hinv
+        | fs e' => cases e' <;> simp only [pure_apply] <;> exact hinv
+
+
+/-- **`dirChange`**: whatever the directory holds and whatever the environment answers, it delivers
+nothing but Creates, each for an entry of the listing it read that had not been seen before; it puts
+nothing on Errors itself and forgets nothing it has seen -/
+theorem dirChange_creates (d : Path) (w : W) (hc : w.s.closed = false) :
+    (dirChange d w).2.errors = w.errors ∧ (∀ p, p ∈ w.s.seen → p ∈ (dirChange d w).2.s.seen) ∧
+    ∃ (cs : List Path) (files : List (Path × Except FsErr Kind)),
+      (dirChange d w).2.events = w.events ++ cs.map (fun p => (⟨p, Create⟩ : Ev)) ∧
+      ∀ p, p ∈ cs → (∃ f, f ∈ files ∧ p = join d f.1) ∧ p ∉ w.s.seen := by
+  have hpure := pure_askReadDir d w
+  have hev : (askReadDir d w).2.events = w.events ∧ (askReadDir d w).2.errors = w.errors := by
+    unfold askReadDir; split <;> (try split) <;> exact ⟨rfl, rfl⟩
+  unfold dirChange
+  simp only [bind_apply]
+  have base : DcInv (askReadDir d w).2 d [] (askReadDir d w).2 := ⟨by rw [hpure]; exact hc, rfl, fun _ h => h, [], by simp, by intro p hp; cases hp⟩
+  cases hr : (askReadDir d w).1 with
+  | error e =>
+    cases e <;> simp only [pure_apply] <;>
+      exact ⟨hev.2, fun p hp => by rw [hpure]; exact hp, [], [], by simp [hev.1], by intro p hp; cases hp⟩
+  | ok files =>
+    simp only [bind_apply, pure_apply]
+    have start : DcInv (askReadDir d w).2 d files (askReadDir d w).2 :=
+      ⟨by rw [hpure]; exact hc, rfl, fun _ h => h, [], by simp, by intro p hp; cases hp⟩
+    obtain ⟨_, e2, e3, cs, e4, e5⟩ := dirChange_loop (askReadDir d w).2 d files files (fun _ h => h) _ start
+    refine ⟨e2.trans hev.2, fun p hp => e3 p (by rw [hpure]; exact hp), cs, files, e4.trans (by rw [hev.1]), ?_⟩
+    intro p hp
+    have := e5 p hp
+    unfold newEntries at this
+    simp only [List.mem_filter, List.mem_map, Bool.not_eq_true'] at this
+    obtain ⟨⟨f, hf, rfl⟩, hns⟩ := this
+    refine ⟨⟨f, hf, rfl⟩, ?_⟩
+    rw [hpure] at hns
+    intro hc'
+    have : w.s.seen.contains (join d f.1) = true := by simpa using hc'
+    rw [this] at hns; cases hns
+
 end KqF
